@@ -5,6 +5,7 @@
 package ext4mkfs
 
 import (
+	"encoding/binary"
 	"fmt"
 	"os"
 	"path/filepath"
@@ -14,6 +15,7 @@ import (
 
 	x "verif/harness/engines/ext4common"
 	"verif/harness/internal/hx"
+	"verif/harness/internal/memdev"
 )
 
 const (
@@ -50,6 +52,53 @@ func boundary() []x.Config {
 		// the witness of finding ext4-create-noflex-journal-over-group (fixed by c2ea435: a return is an unlisted failure)
 		{Size: 100 * MiB, BPG: 4096, Flex: f, Resize: f},
 	}
+}
+
+// ceilRegime: parameter sets that put every ceil-division of Create's geometry on an exact multiple of its divisor
+// (and one off on both sides). The group descriptor table of a backup group has ceil(groups*descSize/blockSize)
+// blocks: 16 / 32 groups with 1 KiB blocks and 64-byte descriptors, 64 / 128 groups with 4 KiB blocks, x flex_bg
+// on/off (flex_bg on leaves the blocks behind a backup's GDT copy free, so one block too many shows there).
+// resize_inode is off except on the default geometry (8 groups of 8192 blocks per flex group) and metadata_csum
+// stays off with small groups: the recorded findings ext4-create-resize-inode-size and -bitmap-csum-small-groups.
+func ceilRegime() []x.Config {
+	f := x.B(false)
+	var out []x.Config
+	for _, flex := range []*bool{nil, f} {
+		// 1 KiB blocks, 2 MiB groups: 15, 16, 17, 32 groups
+		for _, mib := range []int64{30, 32, 34, 64} {
+			out = append(out, x.Config{Size: mib * MiB, BPG: 2048, Resize: f, Journal: f, Flex: flex})
+		}
+		// 1 KiB blocks, 1 MiB groups: 16, 31, 32, 33 groups
+		for _, mib := range []int64{16, 31, 32, 33} {
+			out = append(out, x.Config{Size: mib * MiB, BPG: 1024, Resize: f, Journal: f, Flex: flex})
+		}
+		// 4 KiB blocks, 1 MiB groups (256 blocks): 63, 64, 65, 128 groups
+		for _, mib := range []int64{63, 64, 65, 128} {
+			out = append(out, x.Config{Size: mib * MiB, SPB: 8, BPG: 256, Resize: f, Journal: f, Flex: flex})
+		}
+		// with a journal (4 MiB: two or four whole groups) in front of the first backup groups
+		out = append(out, x.Config{Size: 32 * MiB, BPG: 2048, Resize: f, Flex: flex},
+			x.Config{Size: 64 * MiB, SPB: 8, BPG: 256, Resize: f, Flex: flex})
+		// inode table blocks per group = ceil(inodesPerGroup*256/blockSize): only blocks of 4 KiB and more hold
+		// more than 8 inodes, so 24 / 40 inodes per group leave a partly used last block, 32 fill it exactly
+		for _, ic := range []uint32{4 * 24, 4 * 32, 4 * 40} {
+			out = append(out, x.Config{Size: 16 * MiB, SPB: 8, BPG: 1024, InodeCount: ic, Resize: f, Journal: f, Flex: flex})
+		}
+	}
+	out = append(out,
+		// the default geometry: 16 and 32 groups of 8192 blocks with reserved GDT blocks, journal, flex_bg
+		x.Config{Size: 128 * MiB}, x.Config{Size: 129 * MiB}, x.Config{Size: 256 * MiB},
+		x.Config{Size: 128 * MiB, Flex: f, Resize: f},
+		// 2 KiB blocks: 32 descriptors per block, 32 and 33 groups of 256 blocks
+		x.Config{Size: 16 * MiB, SPB: 4, BPG: 256, Resize: f, Journal: f}, x.Config{Size: 16*MiB + 512*1024, SPB: 4, BPG: 256, Resize: f, Journal: f},
+		// inodes per group = ceil(inodeCount/groups) rounded up to a multiple of 8: 2 groups, exact and not
+		x.Config{Size: 16 * MiB, InodeCount: 101}, x.Config{Size: 16 * MiB, InodeCount: 128}, x.Config{Size: 16 * MiB, InodeCount: 129},
+		// group count = ceil(blocks/blocksPerGroup) with no first-data-block offset: 4 full groups, and one block less
+		x.Config{Size: 16 * MiB, SPB: 8, BPG: 1024, Resize: f, Journal: f}, x.Config{Size: 16*MiB - 4096, SPB: 8, BPG: 1024, Resize: f, Journal: f},
+		// journal blocks = blocks/32 above 128 MiB: exact (129 MiB above) and not
+		x.Config{Size: 200*MiB - 5*1024},
+	)
+	return out
 }
 
 func random(r *hx.Rng) x.Config {
@@ -95,7 +144,7 @@ func random(r *hx.Rng) x.Config {
 }
 
 func Run(c *hx.Ctx) {
-	cfgs := boundary()
+	cfgs := append(boundary(), ceilRegime()...)
 	n := c.N(26, 1500)
 	rr := c.Rng.Fork()
 	for i := 0; i < n; i++ {
@@ -188,6 +237,154 @@ func fitsGo(v *x.View, flex bool, logFlex int) bool {
 	return true
 }
 
+// ownedBlocks: the blocks Create hands out through allocateExtents AFTER the group bitmaps were built - the journal
+// (inode 8) and the root directory (inode 2) with the node blocks of their extent trees, and the resize inode's
+// double-indirect block (inode 7, i_block[13]; all its other blocks are reserved GDT blocks) - decoded from the image.
+func ownedBlocks(v *x.View, d *memdev.Dev, start int64) (map[uint64]bool, error) {
+	le := binary.LittleEndian
+	bs := int64(v.BlockSize)
+	own := map[uint64]bool{}
+	var walk func(node []byte, level int) error
+	walk = func(node []byte, level int) error {
+		if le.Uint16(node[0:]) != 0xF30A || level > 5 {
+			return fmt.Errorf("bad extent node")
+		}
+		n, depth := int(le.Uint16(node[2:])), le.Uint16(node[6:])
+		if 12+12*n > len(node) {
+			return fmt.Errorf("extent node with %d entries", n)
+		}
+		for i := 0; i < n; i++ {
+			e := node[12+12*i:]
+			if depth == 0 {
+				cnt := uint64(le.Uint16(e[4:]))
+				if cnt > 32768 {
+					cnt -= 32768
+				}
+				first := uint64(le.Uint16(e[6:]))<<32 | uint64(le.Uint32(e[8:]))
+				for k := uint64(0); k < cnt; k++ {
+					own[first+k] = true
+				}
+				continue
+			}
+			child := uint64(le.Uint32(e[4:])) | uint64(le.Uint16(e[8:]))<<32
+			if child >= v.BlocksCount {
+				return fmt.Errorf("extent index points at block %d", child)
+			}
+			own[child] = true
+			if err := walk(d.Bytes(start+int64(child)*bs, int(bs)), level+1); err != nil {
+				return err
+			}
+		}
+		return nil
+	}
+	for _, ino := range []uint32{2, 7, 8} {
+		g, idx := int((ino-1)/v.IPG), int64((ino-1)%v.IPG)
+		if g >= len(v.Groups) {
+			continue
+		}
+		raw := d.Bytes(start+int64(v.Groups[g].InodeTable)*bs+idx*int64(v.InodeSize), 128)
+		if le.Uint16(raw[0:]) == 0 { // never written
+			continue
+		}
+		switch {
+		case ino == 7:
+			if b := uint64(le.Uint32(raw[0x28+13*4:])); b != 0 {
+				own[b] = true
+			}
+		case le.Uint32(raw[0x20:])&0x80000 != 0:
+			if err := walk(raw[0x28:0x28+60], 0); err != nil {
+				return nil, fmt.Errorf("inode %d: %w", ino, err)
+			}
+		default:
+			return nil, fmt.Errorf("inode %d has no extent tree", ino)
+		}
+	}
+	return own, nil
+}
+
+// initialBitmaps: per group the runs of marked bits among the group's real blocks once the blocks of ownedBlocks are
+// taken out again, and the free count of the descriptor with them added back: what buildBlockBitmapForGroup and
+// buildGroupDescriptorsFromSuperblock produced, as far as the image still shows it.
+func initialBitmaps(v *x.View, own map[uint64]bool) (used, free string) {
+	perGroup := make([]int, len(v.Groups))
+	for b := range own {
+		if b >= uint64(v.FirstDataBlock) {
+			if g := int((b - uint64(v.FirstDataBlock)) / uint64(v.BPG)); g < len(perGroup) {
+				perGroup[g]++
+			}
+		}
+	}
+	var us, fs []string
+	for g := range v.Groups {
+		bm := v.BlockBitmapBytes(g)
+		n, first := v.BlocksInGroup(g), v.GroupStart(g)
+		var runs []string
+		from := -1
+		for j := 0; j <= n; j++ {
+			set := j < n && bm[j/8]&(1<<(j%8)) != 0 && !own[first+uint64(j)]
+			if set && from < 0 {
+				from = j
+			}
+			if !set && from >= 0 {
+				runs = append(runs, fmt.Sprintf("%d+%d", from, j-from))
+				from = -1
+			}
+		}
+		us = append(us, strings.Join(runs, ","))
+		fs = append(fs, fmt.Sprint(int(v.Groups[g].FreeBlocks)+perGroup[g]))
+	}
+	return strings.Join(us, ";"), strings.Join(fs, ",")
+}
+
+// regimeStats: which ceil-divisions of Create's geometry this accepted image puts on an exact multiple of the divisor
+func regimeStats(c *hx.Ctx, v *x.View, cfg x.Config, flexOn, journalOn bool) {
+	ng := len(v.Groups)
+	ds := 32
+	if v.Incompat&0x80 != 0 {
+		ds = 64
+	}
+	dpb := int(v.BlockSize) / ds
+	fl := map[bool]string{true: "flex", false: "noflex"}[flexOn]
+	switch r := ng % dpb; {
+	case r == 0:
+		c.Stat("groups_multiple_of_desc_per_block")
+		c.Stat(fmt.Sprintf("groups_multiple_of_desc_per_block.bs%d.%s", v.BlockSize, fl))
+	case r == dpb-1 || (r == 1 && ng > dpb):
+		c.Stat("groups_multiple_of_desc_per_block_pm1")
+		c.Stat(fmt.Sprintf("groups_multiple_of_desc_per_block_pm1.bs%d.%s", v.BlockSize, fl))
+	}
+	if uint64(v.IPG)*uint64(v.InodeSize)%uint64(v.BlockSize) == 0 {
+		c.Stat("itable_bytes_multiple_of_block")
+	} else {
+		c.Stat("itable_bytes_not_multiple_of_block")
+	}
+	if (v.BlocksCount-uint64(v.FirstDataBlock))%uint64(v.BPG) == 0 {
+		c.Stat("blocks_multiple_of_group")
+	}
+	if v.BlocksCount%uint64(v.BPG) == 0 {
+		c.Stat("blocks_multiple_of_group_before_first_data_block")
+	}
+	if v.BPG == 8*v.BlockSize {
+		c.Stat("group_fills_bitmap_block")
+	} else {
+		c.Stat("group_smaller_than_bitmap_block")
+	}
+	if cfg.InodeCount != 0 {
+		if int(cfg.InodeCount)%ng == 0 {
+			c.Stat("inode_count_multiple_of_groups")
+		} else {
+			c.Stat("inode_count_not_multiple_of_groups")
+		}
+	}
+	if journalOn && v.BlocksCount/32*uint64(v.BlockSize) > 4<<20 {
+		if v.BlocksCount%32 == 0 {
+			c.Stat("journal_blocks_div32_exact")
+		} else {
+			c.Stat("journal_blocks_div32_inexact")
+		}
+	}
+}
+
 func b2i(b bool) int {
 	if b {
 		return 1
@@ -251,12 +448,26 @@ func one(c *hx.Ctx, id string, cfg x.Config, scratch string) {
 	ceilDiv := func(a, b uint64) uint64 { return (a + b - 1) / b }
 	groupsOff := ceilDiv(v.BlocksCount, uint64(v.BPG)) != ceilDiv(v.BlocksCount-uint64(v.FirstDataBlock), uint64(v.BPG))
 	journalOn := x.On(cfg.Journal, true)
+	regimeStats(c, v, cfg, flexOn, journalOn)
 	if v.IPG >= 11 && cfg.Sparse != 2 && !groupsOff {
+		// the block bitmap of every group as Create built it (Lean: mkBitmaps) and the free counts of the descriptors
+		// (initialFree), compared where the metadata fits its groups (Fits)
+		fits := fitsGo(v, flexOn, cfg.LogFlex)
+		used, free := "-", "-"
+		if fits {
+			own, oerr := ownedBlocks(v, d, cfg.Start)
+			if oerr != nil {
+				c.Fail(id, "-", "Create succeeded but "+oerr.Error(), desc)
+				return
+			}
+			used, free = initialBitmaps(v, own)
+			c.Stat("bitmaps_compared")
+		}
 		modelCase()
 		c.Impl(id, fmt.Sprintf("bs=%d", v.BlockSize), fmt.Sprintf("nb=%d", v.BlocksCount), fmt.Sprintf("bpg=%d", v.BPG),
 			fmt.Sprintf("groups=%d", len(v.Groups)), fmt.Sprintf("ipg=%d", v.IPG), fmt.Sprintf("icount=%d", v.InodesCount),
 			fmt.Sprintf("fdb=%d", v.FirstDataBlock), fmt.Sprintf("rsv=%d", v.ReservedGDT), "bb="+strings.Join(bb, ","),
-			fmt.Sprintf("fits=%d", b2i(fitsGo(v, flexOn, cfg.LogFlex))))
+			fmt.Sprintf("fits=%d", b2i(fits)), "used="+used, "free="+free)
 	}
 	classify := func(out string) string {
 		switch {
